@@ -100,3 +100,45 @@ Fixpoint run_frames (sid cnt : N) (sites : list (etype * N)) : log :=
    statements stand between it and the next read of the counter / the end of its block) *)
 Definition sites_ok (sites : list (N * N)) : bool :=
   negb (Nat.eqb (length sites) 0) && forallb (fun s => snd s =? 1) sites.
+
+(* ---------- correspondence: runs next to store writers under a controlled schedule ----------
+   An actor is a list of calls; a call is one of the store operations of Model/ContStore.v (`cop`) or a
+   whole run: `session_prog ts` on the actor's own fresh session stream and, for a run linked to a thread
+   (POST /threads/{id}/messages), the closing append_run_ended on that thread. *)
+Inductive mop :=
+| MOp (o : cop)
+| MRun (ts : list etype) (link : option nat).
+
+Definition prog_of_mop (l : log) (o : mop) : list mstep :=
+  match o with
+  | MOp c => prog_of_cop l c
+  | MRun ts None => session_prog ts
+  | MRun ts (Some th) => session_prog ts ++ MTarget (nth_thread l th) :: locked_append EContinuityRunEnded []
+  end.
+
+(* session ids of the actors of a case: distinct, and unused by anything a set-up history writes *)
+Definition MIX_SESS_BASE : N := 1000000.
+Fixpoint mix_from (i : N) (l : log) (acts : list (list mop)) : list (list mstep * N) :=
+  match acts with
+  | [] => []
+  | ops :: r => (concat (map (prog_of_mop l) ops), MIX_SESS_BASE + i) :: mix_from (i + 1) l r
+  end.
+Definition mix_actors (l : log) (acts : list (list mop)) : list (list mstep * N) := mix_from 0 l acts.
+
+Record case_mix := {
+  mx_setup : list call;
+  mx_actors : list (list mop);
+  mx_sched : list N;
+  mx_expect : list N
+}.
+Definition run_case_mix (c : case_mix) : state :=
+  let '(_, st) := run_calls empty_state (mx_setup c) in
+  run (mx_sched c) (spawn (mix_actors (s_log st) (mx_actors c)) st).
+Definition model_obs_mix (c : case_mix) : list N :=
+  let l := s_log (run_case_mix c) in (if validate l then 1 else 0) :: canon_log l.
+Definition check_case_mix (c : case_mix) : bool := lN_eqb (model_obs_mix c) (mx_expect c).
+
+(* an actor runs at most one run (its session stream is numbered by ONE run-local counter) *)
+Definition mop_ok (cop_ok : cop -> bool) (o : mop) : bool :=
+  match o with MOp c => cop_ok c | MRun ts _ => forallb is_sess ts end.
+Definition is_run (o : mop) : bool := match o with MRun _ _ => true | MOp _ => false end.
